@@ -169,10 +169,30 @@ func VerifC13ExtensionIDs() {
 		verifAssume(t != 8)
 		verifAssume(t != 1) // sequence headers force a new packet anyway
 		pl := verifBytes("obu.payload", 1)
-		if i > 0 && i < n-1 && verifCase("plain", 0, 1) == 1 {
-			// an OBU without extension header between two that have one
-			stream = append(stream, t<<3|0x02, 1, pl[0])
-			continue
+		if i > 0 && i < n-1 {
+			switch verifCase("middle", 0, verifBound("C13.extkinds")-1) {
+			case 1:
+				// an OBU without extension header between two that have one
+				stream = append(stream, t<<3|0x02, 1, pl[0])
+				continue
+			case 2:
+				// an OBU that is not transmitted (temporal delimiter or tile list) in between
+				d := uint8(2)
+				if verifBool("tilelist") {
+					d = 8
+				}
+				stream = append(stream, d<<3|0x02, 1, pl[0])
+				verifCover("C13.extids.dropped-between")
+				continue
+			case 3:
+				// the same carrying an extension header of its own
+				d := uint8(2)
+				if verifBool("tilelist") {
+					d = 8
+				}
+				stream = append(stream, d<<3|0x04|0x02, verifU8("dropped.extbyte"), 1, pl[0])
+				continue
+			}
 		}
 		ext := verifU8("extbyte")
 		stream = append(stream, t<<3|0x04|0x02, ext, 1, pl[0])
